@@ -11,6 +11,46 @@ from ahbicht.expressions.condition_expression_parser import parse_condition_expr
 from ahbicht.expressions.expression_resolver import parse_expression_including_unresolved_subexpressions as _resolve
 
 
+def _kw_name(fn):
+    """the public name of the string parameter of a parser function (behind the tree_copy / lru_cache decorators), None if it cannot be found"""
+    import inspect
+    try:
+        for c in (fn.__closure__ or []):
+            if hasattr(c.cell_contents, "cache_clear"):
+                return next(iter(inspect.signature(c.cell_contents.__wrapped__).parameters))
+        return next(iter(inspect.signature(fn).parameters))
+    except Exception:  # pylint:disable=broad-except
+        return None
+
+
+_KW = {"cond": _kw_name(_parse_cond), "ahb": _kw_name(_parse_ahb)}
+
+
+def _by_keyword(s) -> bool:
+    """callers may pass the expression by keyword: a third of the strings (a fixed function of the string) always are"""
+    import zlib
+    return isinstance(s, str) and zlib.crc32(s.encode("utf-8", "replace")) % 3 == 0
+
+
+import collections
+
+RECENT = collections.deque(maxlen=4)  # the last parser calls (which parser, string, passed by keyword): part of a replay when the outcome depends on the history
+
+
+def recent():
+    return [list(x) for x in RECENT]
+
+
+def _call(which, fn, s):
+    kw = _KW.get(which)
+    by_kw = bool(kw and kw != "args" and _by_keyword(s))
+    if isinstance(s, str) and len(s) < 400:
+        RECENT.append((which, s, by_kw))
+    if by_kw:
+        return fn(**{kw: s})
+    return fn(s)
+
+
 class LarkTimeout(Exception):
     pass
 
@@ -36,7 +76,7 @@ def outcome_class(e: BaseException) -> str:
 
 def parse_cond(s: Any) -> Dict[str, Any]:
     try:
-        t = guarded(_parse_cond, s)
+        t = guarded(lambda x: _call("cond", _parse_cond, x), s)
     except LarkTimeout:
         raise
     except BaseException as e:  # pylint:disable=broad-except
@@ -47,7 +87,7 @@ def parse_cond(s: Any) -> Dict[str, Any]:
 
 def parse_ahb(s: Any) -> Dict[str, Any]:
     try:
-        t = guarded(_parse_ahb, s)
+        t = guarded(lambda x: _call("ahb", _parse_ahb, x), s)
     except LarkTimeout:
         raise
     except BaseException as e:  # pylint:disable=broad-except
